@@ -360,6 +360,17 @@ impl<CharIter: Iterator<Item = char>> Lexer<CharIter> {
         }
     }
 
+    // a numeric literal that does not fit its type (or has no digits at all) is a syntax error
+    fn parse_number<T: std::str::FromStr>(literal: &str, location: [u32; 2]) -> Result<T> {
+        match literal.parse::<T>() {
+            Ok(number) => Ok(number),
+            Err(_) => located_error!(
+                SyntaxError::ExpectSomething("number".to_string(), literal.to_string()),
+                Some(location)
+            ),
+        }
+    }
+
     fn digital10(&mut self, number_literal: &mut String) -> Result<()> {
         loop {
             match self.peekable_char_stream.peek() {
@@ -437,8 +448,8 @@ impl<CharIter: Iterator<Item = char>> Lexer<CharIter> {
                                 self.advance(1);
                                 self.digital10(&mut denominator)?;
                                 break Ok(Some(TokenData::Primitive(Primitive::Rational(
-                                    number_literal.parse::<i32>().unwrap(),
-                                    match denominator.parse::<u32>().unwrap() {
+                                    Self::parse_number::<i32>(&number_literal, self.location)?,
+                                    match Self::parse_number::<u32>(&denominator, self.location)? {
                                         0 => {
                                             return located_error!(
                                                 SyntaxError::RationalDivideByZero,
@@ -452,13 +463,13 @@ impl<CharIter: Iterator<Item = char>> Lexer<CharIter> {
                             _ => {
                                 Self::test_delimiter(Some(self.location), *nc)?;
                                 break Ok(Some(TokenData::Primitive(Primitive::Integer(
-                                    number_literal.parse::<i32>().unwrap(),
+                                    Self::parse_number::<i32>(&number_literal, self.location)?,
                                 ))));
                             }
                         },
                         None => {
                             break Ok(Some(TokenData::Primitive(Primitive::Integer(
-                                number_literal.parse::<i32>().unwrap(),
+                                Self::parse_number::<i32>(&number_literal, self.location)?,
                             ))))
                         }
                     }
